@@ -332,6 +332,16 @@ impl ActorCell {
     /// Returns the status observed immediately before the update.
     pub(crate) fn set_status(&self, status: ActorStatus) -> ActorStatus {
         let previous_status = self.inner.set_status(status);
+        #[cfg(ractor_verif)]
+        crate::verif::point_kv(
+            "status.set",
+            self.get_id().pid(),
+            status as i64,
+            vec![(
+                "prev".to_string(),
+                crate::verif::Val::I(previous_status as i64),
+            )],
+        );
 
         // The actor is shut down — only run cleanup once, on the first transition
         // to Stopping. Publish the new status before cleanup so concurrent PG
@@ -343,14 +353,22 @@ impl ActorCell {
                 crate::registry::pid_registry::demonitor(self.get_id());
                 // unregistry from the PID registry
                 crate::registry::pid_registry::unregister_pid(self.get_id());
+                #[cfg(ractor_verif)]
+                crate::verif::point("cleanup.pid", self.get_id().pid(), 0);
             }
             // If it's enrolled in the registry, remove it
             if let Some(name) = self.get_name() {
                 crate::registry::unregister(name);
+                #[cfg(ractor_verif)]
+                crate::verif::point("cleanup.name", self.get_id().pid(), 0);
             }
             // Leave all + stop monitoring pg groups (if any)
             crate::pg::demonitor_all(self.get_id());
+            #[cfg(ractor_verif)]
+            crate::verif::point("cleanup.pgmon", self.get_id().pid(), 0);
             crate::pg::leave_all(self.get_id());
+            #[cfg(ractor_verif)]
+            crate::verif::point("cleanup.pgleave", self.get_id().pid(), 0);
         }
 
         // Fix for #254. We should only notify the stop listener AFTER post_stop
@@ -370,9 +388,13 @@ impl ActorCell {
             // We don't need to notify of exit if we're already stopping or stopped.
             if actor.get_status() <= ActorStatus::Upgrading {
                 actor.kill();
+                #[cfg(ractor_verif)]
+                crate::verif::point("term.kill", actor.get_id().pid(), 0);
             }
 
             let children = super::supervision::SupervisionTree::take_children(&actor);
+            #[cfg(ractor_verif)]
+            crate::verif::point("term.take", actor.get_id().pid(), children.len() as i64);
             // Reverse the snapshot so the worklist retains the previous depth-first order.
             pending.extend(children.into_iter().rev());
         }
